@@ -3,6 +3,7 @@ package main
 // C07 — decrypt yields the plaintext or an error, never a crash (DESIGN §3 C07). E-NIL + E-DOM.
 
 import (
+	"go/constant"
 	"go/token"
 	"go/types"
 	"strings"
@@ -25,7 +26,7 @@ func init() {
 		Assumptions: []string{"declared nullable sources: Metastore.Load/LoadLatest and Loader.Load results, EnvelopeKeyRecord.ParentKeyMeta, DataRowRecord.Key", "accessor closures run synchronously where they are created"},
 		Tech:        "static analysis: targeted nil-guard dominance (access-path facts, helper-parameter and closure summaries) + error-discipline on SSA",
 		NeedU1:      true,
-		Rules:       []func(*Ctx){ruleC07NilGuard, ruleC07LengthGuard, ruleC07AuthenticatedOnly, ruleC07ErrorsPropagate, ruleC07SuccessCarriesData, ruleC07UseAfterErrorCheck, nilContradictionRule("C07", false, "github.com/godaddy/asherah/go/appencryption")},
+		Rules:       []func(*Ctx){ruleC07NilGuard, ruleC07LengthGuard, ruleC07AuthenticatedOnly, ruleC07ErrorsPropagate, ruleC07SuccessCarriesData, ruleC07UseAfterErrorCheck, ruleC07DecodedPointerElementsGuarded, nilContradictionRule("C07", false, "github.com/godaddy/asherah/go/appencryption")},
 	})
 }
 
@@ -143,6 +144,53 @@ func isLenOf(v ssa.Value, x ssa.Value) bool {
 	return isB && b.Name() == "len" && (resolve(cv.Call.Args[0]) == resolve(x) || accessPath(cv.Call.Args[0]) == accessPath(x))
 }
 
+// indexBelowLen: a dominating fact orders idx strictly below len(base).
+func indexBelowLen(idx, base ssa.Value, b *ssa.BasicBlock) bool {
+	for _, fct := range factsAt(b) {
+		bo, isB := fct.V.(*ssa.BinOp)
+		if !isB {
+			continue
+		}
+		switch {
+		case bo.Op == token.LSS && sameExpr(bo.X, idx) && isLenOf(bo.Y, base) && fct.True,
+			bo.Op == token.GTR && isLenOf(bo.X, base) && sameExpr(bo.Y, idx) && fct.True,
+			bo.Op == token.GEQ && sameExpr(bo.X, idx) && isLenOf(bo.Y, base) && !fct.True,
+			bo.Op == token.LEQ && isLenOf(bo.X, base) && sameExpr(bo.Y, idx) && !fct.True:
+			return true
+		}
+	}
+	return false
+}
+
+// knownNonEmpty: a dominating fact says len(x) > 0 / len(x) != 0 / x != "".
+func knownNonEmpty(x ssa.Value, b *ssa.BasicBlock) bool {
+	for _, fct := range factsAt(b) {
+		bo, isB := fct.V.(*ssa.BinOp)
+		if !isB {
+			continue
+		}
+		k, isK := constOf(bo.Y)
+		if !isK {
+			continue
+		}
+		if isLenOf(bo.X, x) {
+			kv, _ := constantInt64(k)
+			switch {
+			case bo.Op == token.GTR && fct.True && kv >= 0, bo.Op == token.GEQ && fct.True && kv >= 1,
+				bo.Op == token.NEQ && fct.True && kv == 0, bo.Op == token.EQL && !fct.True && kv == 0,
+				bo.Op == token.LEQ && !fct.True && kv >= 0, bo.Op == token.LSS && !fct.True && kv >= 1:
+				return true
+			}
+		}
+		if k.Kind() == constant.String && constant.StringVal(k) == "" && sameExpr(bo.X, x) {
+			if (bo.Op == token.NEQ && fct.True) || (bo.Op == token.EQL && !fct.True) {
+				return true
+			}
+		}
+	}
+	return false
+}
+
 // ruleC07LengthGuard: on the decrypt path no slice expression or make() size derived from attacker-controlled lengths can
 // go out of range: a bound `len(x) - n` needs a dominating len(x) >= n, any other non-constant bound B of x[..] needs a
 // dominating B <= len(x), and a make() size computed by subtraction needs its operands ordered by a dominating test.
@@ -222,11 +270,36 @@ func ruleC07LengthGuard(c *Ctx) {
 				case *ssa.Index:
 					base, idx = y.X, y.Index
 				}
+				if bt, isB := base.Type().Underlying().(*types.Basic); isB && bt.Info()&types.IsString != 0 {
+					// s[i] on a string
+					if kx, isK := constOf(idx); isK {
+						if kv, _ := constantInt64(kx); kv == 0 && knownNonEmpty(base, i.Block()) {
+							return
+						}
+					}
+					n++
+					c.CallSites++
+					c.FuncsAnalysed[shortName(f)] = true
+					c.check(indexBelowLen(idx, base, i.Block()), trimPkgDirs(shortName(f))+"/string-index["+describeOperand(idx)+"]", u.ipos(i), "string index dominated by index < len", "a byte of a string that comes from a stored record (a key id) is addressed on the decrypt path by an index that no dominating test keeps below the string's length: a short, empty or foreign id panics (index out of range) instead of producing an error")
+					return
+				}
 				if _, isSlice := base.Type().Underlying().(*types.Slice); !isSlice {
 					return
 				}
 				k, isC := constOf(idx)
 				if !isC {
+					if _, fresh := resolve(base).(*ssa.MakeSlice); fresh {
+						return
+					}
+					// the generic cache's sketch / bloom filter index their own tables by masked hashes, not by anything
+					// derived from a record (panic-freedom of pkg/cache is C15's)
+					if strings.Contains(f.Pkg.Pkg.Path(), "/pkg/cache") {
+						return
+					}
+					n++
+					c.CallSites++
+					c.FuncsAnalysed[shortName(f)] = true
+					c.check(indexBelowLen(idx, base, i.Block()), trimPkgDirs(shortName(f))+"/index["+describeOperand(idx)+"]", u.ipos(i), "variable index dominated by index < len", "an element of a slice is addressed on the decrypt path by a computed index that no dominating test keeps below the slice's length: a short or foreign input panics (index out of range) instead of producing an error")
 					return
 				}
 				if _, fresh := resolve(base).(*ssa.MakeSlice); fresh {
@@ -261,9 +334,9 @@ func ruleC07LengthGuard(c *Ctx) {
 					if v, isL := cmp(bo.X, bo.Y); isL {
 						switch {
 						case bo.Op == token.GTR && fct.True && v >= kv, // len > v
-							bo.Op == token.GEQ && fct.True && v > kv, // len >= v
-							bo.Op == token.LEQ && !fct.True && v >= kv, // !(len <= v)
-							bo.Op == token.LSS && !fct.True && v > kv, // !(len < v)
+							bo.Op == token.GEQ && fct.True && v > kv,             // len >= v
+							bo.Op == token.LEQ && !fct.True && v >= kv,           // !(len <= v)
+							bo.Op == token.LSS && !fct.True && v > kv,            // !(len < v)
 							bo.Op == token.EQL && !fct.True && v == 0 && kv == 0, // len != 0
 							bo.Op == token.NEQ && fct.True && v == 0 && kv == 0,
 							bo.Op == token.EQL && fct.True && v > kv: // len == v
